@@ -577,13 +577,368 @@ def run_case(ctx, runner, case, batch):
     return res
 
 
+# ---------------------------------------------------------------------------------------------
+# READ into array elements whose subscripts depend on variables read earlier in the SAME statement.
+# Reference semantics (from the statement: items are delivered to the variables in order): strictly left to
+# right, the subscripts of a target are evaluated just before its item is assigned.
+
+ARR_DIMS = {'A#': [12], 'B$': [12], 'IX%': [12], 'C#': [5, 5]}
+ARR_SCALARS = ['N%', 'J%', 'K%', 'X#', 'S$']
+ARR_STALE = {'N%': 9, 'J%': 10, 'K%': 11, 'X#': -7777.0, 'S$': '~#~'}
+# every item is a small integer 0..8 in some literal form: usable as subscript, as number and as text
+ARR_ITEM_FORMS = [lambda v: b'%d' % v, lambda v: b' %d ' % v, lambda v: b'&H%X' % v, lambda v: b'%d.0' % v,
+                  lambda v: b'+%d' % v, lambda v: b'0%d' % v, lambda v: b'&O%o' % v, lambda v: b'%dE0' % v,
+                  lambda v: b'  %d' % v, lambda v: b'%d#' % v]
+
+
+def expr_text(e):
+    k = e[0]
+    if k == 'const':
+        return '%d' % e[1]
+    if k == 'var':
+        return e[1]
+    if k == 'add':
+        return '%s+%d' % (expr_text(e[1]), e[2])
+    if k == 'mod':
+        return '(%s) MOD %d' % (expr_text(e[1]), e[2])
+    if k == 'elem':
+        return '%s(%s)' % (e[1], expr_text(e[2]))
+    raise ValueError(e)
+
+
+def expr_eval(e, store):
+    k = e[0]
+    if k == 'const':
+        return e[1]
+    if k == 'var':
+        return int(store[e[1]])
+    if k == 'add':
+        return expr_eval(e[1], store) + e[2]
+    if k == 'mod':
+        return expr_eval(e[1], store) % e[2]
+    if k == 'elem':
+        return int(store[e[1]][expr_eval(e[2], store)])
+    raise ValueError(e)
+
+
+def target_text(t):
+    return t['name'] if not t.get('subs') else '%s(%s)' % (t['name'], ','.join(expr_text(e) for e in t['subs']))
+
+
+def arr_initial_store():
+    st = dict(ARR_STALE)
+    st['A#'] = [-7777.0] * 13
+    st['B$'] = ['~#~'] * 13
+    st['IX%'] = [12] * 13
+    st['C#'] = [[-7777.0] * 6 for _ in range(6)]
+    return st
+
+
+def arr_assign(store, t, value):
+    """One assignment of the reference semantics: subscripts evaluated NOW, in the current store."""
+    name = t['name']
+    if name.endswith('$'):
+        v = value
+    elif name.endswith('%'):
+        v = int(value)
+    else:
+        v = float(value)
+    if not t.get('subs'):
+        store[name] = v
+        return
+    idx = [expr_eval(e, store) for e in t['subs']]
+    cell = store[name]
+    for i in idx[:-1]:
+        cell = cell[i]
+    cell[idx[-1]] = v
+
+
+def arr_simulate(case, values_of):
+    """Run the READ/RESTORE statements of an array case over a store.  values_of(op_index, k) -> the value the
+    k-th target of that statement receives ((numeric, text) pair) or None when there is no further item."""
+    store = arr_initial_store()
+    errs = []
+    for oi, op in enumerate(case['ops']):
+        err = None
+        if op['kind'] == 'read':
+            for k, t in enumerate(op['targets']):
+                val = values_of(oi, k)
+                if val is None:
+                    err = [4, op['line']]
+                    break
+                arr_assign(store, t, val[1] if t['name'].endswith('$') else val[0])
+        elif op.get('err'):
+            err = op['err']
+        errs.append(err)
+    return store, errs
+
+
+def store_string(store, errs):
+    def num(x):
+        return repr(float(x))
+    parts = []
+    for n in ARR_SCALARS:
+        parts.append('%s=%s' % (n, store[n] if n.endswith('$') else num(store[n])))
+    for n in ('A#', 'IX%'):
+        parts.append('%s=%s' % (n, ','.join(num(x) for x in store[n])))
+    parts.append('B$=%s' % '|'.join(store['B$']))
+    parts.append('C#=%s' % ';'.join(','.join(num(x) for x in row) for row in store['C#']))
+    parts.append('err=%s' % ';'.join('-' if e is None else '%d@%d' % tuple(e) for e in errs))
+    return ' '.join(parts)
+
+
+class ArrGen(object):
+    def __init__(self, rng):
+        self.rng = rng
+
+    def expr(self, earlier, depth=0):
+        """subscript expression, preferably over a scalar read earlier in the same statement"""
+        rng = self.rng
+        pool = earlier if earlier and rng.random() < 0.85 else ['N%', 'J%', 'K%']
+        e = ['var', rng.choice(pool)]
+        r = rng.random()
+        if r < 0.30:
+            e = ['add', e, 1]          # stale scalars are <= 12-... see bounds below
+        elif r < 0.45 and depth == 0:
+            e = ['elem', 'IX%', e]
+        elif r < 0.50:
+            e = ['const', rng.randint(0, 12)]
+        return e
+
+    def target(self, earlier, earlier_ix):
+        rng = self.rng
+        r = rng.random()
+        if r < 0.30:
+            return dict(name=rng.choice(ARR_SCALARS))
+        arr = rng.choice(['A#', 'A#', 'B$', 'IX%', 'C#'])
+        if arr == 'C#':
+            return dict(name=arr, subs=[['mod', self.expr(earlier, 1), 6], ['mod', self.expr(earlier, 1), 6]])
+        e = self.expr(earlier)
+        if e[0] == 'add' and arr != 'A#':
+            pass
+        return dict(name=arr, subs=[e])
+
+    def program(self):
+        rng = self.rng
+        n_lines = rng.randint(6, 12)
+        nums, cur = [], rng.choice([10, 100])
+        for _ in range(n_lines + 4):
+            nums.append(cur)
+            cur += rng.choice([1, 5, 10])
+        setup1, setup2, body_nos, end_no, handler_no = nums[0], nums[1], nums[2:2 + n_lines], nums[-2], nums[-1]
+        # flat items
+        flat, lines, ops, k = [], [], [], 0
+        plan = []
+        for no in body_nos:
+            plan.append('data' if rng.random() < 0.45 else 'act')
+        if 'data' not in plan:
+            plan[0] = 'data'
+        if plan.count('act') < 2:
+            plan[-1] = plan[-2] = 'act'
+            plan[0] = 'data'
+        data_nos = [no for no, p in zip(body_nos, plan) if p == 'data']
+        texts = {}
+        for no in data_nos:
+            its = []
+            for _ in range(rng.choice([2, 3, 4, 6])):
+                v = rng.randint(0, 8)
+                raw = rng.choice(ARR_ITEM_FORMS)(v)
+                its.append(raw)
+                flat.append((v, raw.strip(b' '), no))
+            texts[no] = b'DATA ' + b','.join(its)
+        idx = 0
+        for no, p in zip(body_nos, plan):
+            if p == 'data':
+                # sometimes a READ shares the line with the DATA statement
+                lines.append((no, [texts[no]]))
+                continue
+            parts = []
+            for _ in range(rng.choice([1, 1, 2])):
+                k += 1
+                r = rng.random()
+                if r < 0.12:
+                    ops.append(dict(k=k, line=no, kind='restore', err=None))
+                    parts.append(b'K9%%=%d:RESTORE' % k)
+                elif r < 0.28:
+                    target = rng.choice(data_nos + body_nos)
+                    ops.append(dict(k=k, line=no, kind='restoreline', target=target, err=None))
+                    parts.append(b'K9%%=%d:RESTORE %d' % (k, target))
+                else:
+                    targets, earlier = [], []
+                    for j in range(rng.choice([2, 2, 3, 3, 4])):
+                        if j == 0 and rng.random() < 0.8:
+                            t = dict(name=rng.choice(['N%', 'J%', 'K%']))
+                        else:
+                            t = self.target(earlier, None)
+                        targets.append(t)
+                        if t['name'] in ('N%', 'J%', 'K%') and not t.get('subs'):
+                            earlier.append(t['name'])
+                    ops.append(dict(k=k, line=no, kind='read', targets=targets,
+                                    vars=[target_text(t) for t in targets]))
+                    parts.append(b'K9%%=%d:READ ' % k + b','.join(b1(target_text(t)) for t in targets))
+            lines.append((no, parts))
+        prog = [b'%d ON ERROR GOTO %d:DIM A#(12),B$(12),IX%%(12),C#(5,5),ER%%(%d),EL!(%d)'
+                % (setup1, handler_no, k + 1, k + 1),
+                b'%d FOR I%%=0 TO 12:A#(I%%)=-7777:B$(I%%)="~#~":IX%%(I%%)=12:NEXT:'
+                b'FOR I%%=0 TO 5:FOR I2%%=0 TO 5:C#(I%%,I2%%)=-7777:NEXT:NEXT:N%%=9:J%%=10:K%%=11:X#=-7777:S$="~#~"'
+                % setup2]
+        for no, parts in lines:
+            prog.append(b'%d ' % no + b':'.join(parts))
+        prog.append(b'%d DONE%%=1:END' % end_no)
+        prog.append(b'%d ER%%(K9%%)=ERR:EL!(K9%%)=ERL:RESUME NEXT' % handler_no)
+        return dict(kind='array', lines=[l1(x) for x in prog], ops=ops,
+                    flat=[[v, l1(t), no] for v, t, no in flat], data_lines=sorted(set(data_nos)),
+                    all_lines=sorted(nums[:2] + body_nos + [end_no, handler_no]))
+
+
+def arr_oracle_values(case):
+    """value source from the generator's own item list, with the RESTORE targets it chose"""
+    flat = case['flat']
+    state = {'idx': 0, 'op': -1}
+
+    def prepare(oi):
+        # apply the RESTOREs between the previous consulted op and this one
+        for j in range(state['op'] + 1, oi + 1):
+            op = case['ops'][j]
+            if op['kind'] == 'restore':
+                state['idx'] = 0
+            elif op['kind'] == 'restoreline':
+                state['idx'] = len([1 for it in flat if it[2] < op['target']])
+        state['op'] = oi
+
+    def values_of(oi, k):
+        prepare(oi)
+        if state['idx'] >= len(flat):
+            return None
+        v, t, _ = flat[state['idx']]
+        state['idx'] += 1
+        return (v, t)
+    return values_of, prepare
+
+
+def arr_observe(runner, case):
+    s = runner.get()
+    trouble = []
+    basic.safe_exec(s, b'NEW')
+    for ln in case['lines']:
+        out = basic.safe_exec(s, b1(ln))
+        if out.strip():
+            trouble.append('entering %r printed %r' % (ln, out))
+    out = basic.safe_exec(s, b'RUN')
+    if out.strip():
+        trouble.append('RUN printed %r' % out)
+    store = {}
+    try:
+        for n in ARR_SCALARS:
+            x = s.get_variable(n)
+            store[n] = l1(x) if isinstance(x, bytes) else x
+        store['A#'] = list(s.get_variable('A#('))
+        store['IX%'] = list(s.get_variable('IX%('))
+        store['B$'] = [l1(x) for x in s.get_variable('B$(')]
+        store['C#'] = [list(r) for r in s.get_variable('C#(')]
+        er, el = s.get_variable('ER%('), s.get_variable('EL!(')
+        if s.get_variable('DONE%') != 1:
+            trouble.append('program did not reach END')
+    except Exception as e:      # noqa
+        trouble.append('get_variable: %r' % e)
+        return None, None, trouble, None
+    errs = []
+    for op in case['ops']:
+        k = op['k']
+        errs.append([er[k], int(el[k])] if k < len(er) and er[k] else None)
+    prog = s._impl.program
+    res = dict(code=bytes(prog.bytecode.getvalue()), table=dict(prog.line_numbers))
+    return store, errs, trouble, res
+
+
+def arr_model_line(case, res):
+    ops = []
+    for op in case['ops']:
+        if op['kind'] == 'restore':
+            ops.append('r')
+        elif op['kind'] == 'restoreline':
+            ops.append('R%d' % op['target'])
+        else:
+            ops.append('d' + ''.join('s' if t['name'].endswith('$') else 'n' for t in op['targets']))
+    tbl = ','.join('%d:%d' % kv for kv in sorted(res['table'].items())) or '-'
+    return 'run %s %s %s' % (res['code'].hex() or '-', tbl, ';'.join(ops))
+
+
+def arr_model_string(runner, case, reply):
+    """final store predicted from the MODEL's item values under the left-to-right assignment rule"""
+    if not reply.startswith('ok '):
+        return reply
+    outs = reply[3:].split(';')
+    vals = []
+    for op, r in zip(case['ops'], outs):
+        body = r.partition('!')[0]
+        row = []
+        for t, tok in zip(op.get('targets', []), [x for x in body.split(',') if x]):
+            raw = b'' if tok[1:] == '-' else bytes.fromhex(tok[1:])
+            if tok[0] == 'n':
+                row.append((runner.convert(raw, t['name'].rstrip('(')[-1] if not t['name'].endswith('$') else '#'), None))
+            else:
+                row.append((None, l1(raw)))
+        vals.append(row)
+
+    def values_of(oi, k):
+        return vals[oi][k] if k < len(vals[oi]) else None
+    try:
+        store, errs = arr_simulate(case, values_of)
+    except Exception as e:      # noqa
+        return 'model-simulation failed: %r' % e
+    return store_string(store, errs)
+
+
+def arr_evaluate(case, store, errs, trouble):
+    """independent oracle for an array case -> list of (key, what)"""
+    fails = []
+    if trouble:
+        fails.append(('array-program-trouble', '; '.join(trouble)[:400]))
+    if store is None:
+        return fails
+    values_of, prepare = arr_oracle_values(case)
+    try:
+        exp_store, exp_errs = arr_simulate(case, values_of)
+    except Exception as e:      # noqa
+        return fails + [('array-oracle-error', repr(e))]
+    for n in ARR_SCALARS + ['A#', 'B$', 'IX%', 'C#']:
+        if store[n] != exp_store[n]:
+            fails.append(('read-array-target-order' if n in ARR_DIMS else 'read-scalar-in-array-statement',
+                          '%s should be %r after the program, is %r (targets are assigned strictly left to right, '
+                          'subscripts evaluated when their item is assigned)' % (n, exp_store[n], store[n]))
+                         )
+    if errs != exp_errs:
+        fails.append(('array-read-errors', 'expected ERR/ERL per statement %s, got %s' % (exp_errs, errs)))
+    return fails
+
+
+def run_array_case(ctx, runner, case, batch):
+    store, errs, trouble, res = arr_observe(runner, case)
+    ctx.case(json.dumps(case['lines']))
+    ctx.count('array-program')
+    for key, what in arr_evaluate(case, store, errs, trouble):
+        ctx.fail(key, case, what)
+    for op in case['ops']:
+        ctx.count('array-op:' + op['kind'])
+        if op['kind'] == 'read':
+            names = set()
+            for t in op['targets']:
+                if t.get('subs') and any(n in json.dumps(t['subs']) for n in names):
+                    ctx.count('array-target-depends-on-earlier')
+                if not t.get('subs'):
+                    names.add(t['name'])
+    if store is not None and res is not None:
+        batch.append((case, store_string(store, errs), arr_model_line(case, res)))
+
+
 def flush(ctx, runner, batch):
     if not batch:
         return
     replies = ctx.model([b[2] for b in batch])
     if replies is not None:
         for (case, impl, line), rep in zip(batch, replies):
-            m = model_string(runner, case, rep)
+            m = (arr_model_string if case.get('kind') == 'array' else model_string)(runner, case, rep)
             if m != impl:
                 ctx.disagree({'label': 'program', 'input': case['lines'], 'line': line[:300]}, impl, m)
     del batch[:]
@@ -607,6 +962,15 @@ def run(ctx):
             if len(batch) >= 200:
                 flush(ctx, runner, batch)
         flush(ctx, runner, batch)
+        agen = ArrGen(ctx.rng)
+        for i in range(120 if ctx.quick else 3000):
+            case = agen.program()
+            run_array_case(ctx, runner, case, batch)
+            if i < 2:
+                ctx.sample({'lines': case['lines']})
+            if len(batch) >= 200:
+                flush(ctx, runner, batch)
+        flush(ctx, runner, batch)
     finally:
         runner.close()
 
@@ -616,6 +980,14 @@ def replay(ctx, payload):
     if 'lines' not in case:
         return None
     runner = Runner()
+    if case.get('kind') == 'array':
+        try:
+            store, errs, trouble, _res = arr_observe(runner, case)
+            fails = arr_evaluate(case, store, errs, trouble)
+        finally:
+            runner.close()
+        hits = [w for k, w in fails if k == payload.get('key')]
+        return hits[0] if hits else (fails[0][1] if fails else None)
     try:
         res = runner.run(case)
         fails = oracle(case, res)
